@@ -53,7 +53,8 @@ PickResult(p, i, c, strict) ==
   IF Len(p) = 0 THEN [err |-> "empty", idx |-> i, cw |-> c]
   ELSE LET mx == MaxWeight(p)
            g == WeightGcd(p)
-           levels == IF g > 0 THEN mx \div g ELSE mx          \* number of weight levels of one rotation
+           top == IF c > mx THEN c ELSE mx                   \* a failed update can leave the level above the new maximum
+           levels == IF g > 0 THEN top \div g ELSE top        \* number of weight levels the loop may have to walk down
        IN Scan(p, i, c, g, mx, strict, (levels + 2) * (Len(p) + 1))
 
 FindKey(p, k) ==              \* findServerByURL: first index with the same identity, 0 if none
